@@ -303,6 +303,17 @@ Proof. apply overlap_refutes; unfold lat_write; lia. Qed.
 Theorem loss_overlap_refuted : ~ effect_while_active_statement loss_write.
 Proof. apply overlap_refutes; unfold loss_write; lia. Qed.
 
+(** Capacity value: configured 10 (40 quarter units), two halvings. *)
+Theorem capacity_overlap_refuted : ~ effect_while_active_statement capv_write.
+Proof.
+  intros H.
+  destruct (H (fun _ => 40) (overlap_witness 2 2)) with (x := 0) (t := 4) as (w & Hin & _ & _ & Hv).
+  - intros w [<-|[<-|[]]]; cbn; lia.
+  - reflexivity.
+  - assert (E : reg_at capv_write (fun _ => 40) (overlap_witness 2 2) 4 0 = 40) by reflexivity.
+    rewrite E in Hv. destruct Hin as [<-|[<-|[]]]; vm_compute in Hv; discriminate.
+Qed.
+
 (** Abutting windows listed in reverse chronological order are already enough:
     B = [5,9) is added before A = [1,5); at t = 5 A's deactivation (created
     later) runs after B's activation. *)
